@@ -59,7 +59,7 @@ COMP_FIELDS = [['comp'], ['uh', 'comp'], ['sec', 0, 'comp'], ['sec', 1, 'comp'],
 def bounds(tier):
     return {'byte_fields': len(BYTE_FIELDS), 'flags': 'all 65536' if tier == 'thorough' else 'stride 17 + bits + pairs',
             'component_ids': 'all 65536 x 3 creators x 2 registry configs' if tier == 'thorough' else 'stride 257 + boundaries',
-            'lp': '64 name lengths x 256 counts' if tier == 'thorough' else '4 name lengths x 256 counts',
+            'lp': 'all 256 name lengths x 256 counts' if tier == 'thorough' else '16 name lengths (all residues mod 4) x 57 counts',
             'id_pairs': tier == 'thorough'}
 
 
@@ -75,8 +75,8 @@ def plan(tier, seed):
         for reg in (False, True):
             for cr in ('O', 'H', 'x', 'B'):
                 ch.append({'k': 'comp', 'creator': cr, 'reg': reg, 'lo': 0, 'hi': 65536, 'stride': 257})
-        for nl in (0, 4, 8, 252):
-            ch.append({'k': 'lp', 'namelens': [nl]})
+        for nls in ((0, 1, 2, 3), (4, 5, 6, 7), (8, 9, 10, 11), (252, 253, 254, 255)):
+            ch.append({'k': 'lp', 'namelens': list(nls), 'counts': sorted(set(range(0, 256, 5)) | {1, 2, 3, 4, 254, 255})})
     else:
         for lo in range(0, 65536, 4096):
             ch.append({'k': 'flags', 'lo': lo, 'hi': lo + 4096})
@@ -84,8 +84,8 @@ def plan(tier, seed):
             for cr in ('O', 'H', 'x', 'B'):
                 for lo in range(0, 65536, 8192):
                     ch.append({'k': 'comp', 'creator': cr, 'reg': reg, 'lo': lo, 'hi': lo + 8192, 'stride': 1})
-        for nl in range(0, 256, 16):
-            ch.append({'k': 'lp', 'namelens': list(range(nl, nl + 16, 4))})
+        for nl in range(0, 256, 4):
+            ch.append({'k': 'lp', 'namelens': list(range(nl, nl + 4))})
     return ch
 
 
@@ -225,7 +225,7 @@ def run_chunk(chunk):
         impl.ensure(False)
     elif k == 'lp':
         for nl in chunk['namelens']:
-            for cnt in range(256):
+            for cnt in chunk.get('counts', range(256)):
                 targets = [((i * 257 + cnt) & 0xffff) or 0x8001 for i in range(cnt)]
                 _do(res, [[['sec', 2, 'name'], (TEXT_CHARS * 4)[:nl]], [['sec', 2, 'targets'], targets]], every=97)
     return res
